@@ -103,6 +103,8 @@ mod verif {
     }
     fn check(log: &Log, meta: &[(u8, u8, u8); LOG_CAP], _complete: usize, start: usize, r: Result<(Option<CommittedEvents>, Option<u64>), ReadError>) {
         let (res, next) = match r { Ok(x) => x, Err(_) => { assert!(false, "reading at a record boundary of a well-formed log never fails"); loop {} } };
+        kani::cover!(matches!(&res, Some(CommittedEvents::Transaction { events, .. }) if events.len() >= 2), "reachable: a committed multi-event transaction is returned");
+        kani::cover!(res.is_none(), "reachable: nothing committed at this position");
         match res {
             Some(CommittedEvents::Single(e)) => {
                 assert!(e.offset == offset_of(log, start), "a single event is the record at the requested offset");
